@@ -4,6 +4,7 @@ package net
 
 import (
 	"context"
+	"sort"
 
 	"github.com/ipfs/boxo/blockservice"
 
@@ -13,4 +14,25 @@ import (
 // VerifSyncDAG exposes syncDAG.
 func VerifSyncDAG(ctx context.Context, bs blockservice.BlockService, block *coreblock.Block) error {
 	return syncDAG(ctx, bs, block)
+}
+
+// VerifReplicatorRouting returns a copy of the in-memory routing table that maps collection
+// ids to the peers they are replicated to, and the pubsub topics the server is subscribed to.
+func (p *Peer) VerifReplicatorRouting() (replicators map[string][]string, topics []string) {
+	p.server.mu.Lock()
+	defer p.server.mu.Unlock()
+	replicators = make(map[string][]string, len(p.server.replicators))
+	for colID, peers := range p.server.replicators {
+		ids := make([]string, 0, len(peers))
+		for pid := range peers {
+			ids = append(ids, pid.String())
+		}
+		sort.Strings(ids)
+		replicators[colID] = ids
+	}
+	for t := range p.server.topics {
+		topics = append(topics, t)
+	}
+	sort.Strings(topics)
+	return replicators, topics
 }
